@@ -1,0 +1,28 @@
+//go:build verif
+
+package internal
+
+// Contracts for the deductive verifier in /verif (govc). Comment-only file: adds no code.
+
+// The server's interceptor chains, outermost first: unary = tracing, CRASH (panic => Internal), stat, prometheus,
+// BREAKER, then the configured ones (shedding, timeout, auth); stream = tracing, crash, breaker, then the
+// configured ones. The crash interceptor is outside everything that can panic, the breaker outside the handler.
+//@ func (*server).Start
+//@   prop C02, C01
+//@   opaque Listen, UnaryStatInterceptor, WithUnaryServerInterceptors, WithStreamServerInterceptors, NewServer, RegisterHealthServer, Resume, MarkReady, AddProbe, AddWrapUpListener, Serve
+//@   requires s != nil && s.baseServer != nil
+//@   let u = arg(WithUnaryServerInterceptors, 0)
+//@   let st = arg(WithStreamServerInterceptors, 0)
+//@   ensures [listen-error] ret(net.Listen, 1) != nil ==> result == ret(net.Listen, 1) && calls(NewServer) == 0
+//@   ensures [unary-chain-order] ret(net.Listen, 1) == nil ==> calls(WithUnaryServerInterceptors) == 1 && len(u) == 5 + len(s.baseServer.unaryInterceptors) && u[0] == serverinterceptors.UnaryTracingInterceptor && u[1] == serverinterceptors.UnaryCrashInterceptor && u[2] == ret(serverinterceptors.UnaryStatInterceptor) && u[3] == serverinterceptors.UnaryPrometheusInterceptor && u[4] == serverinterceptors.UnaryBreakerInterceptor
+//@   ensures [configured-unary-interceptors-follow-in-order] ret(net.Listen, 1) == nil ==> forall(j, 0, len(s.baseServer.unaryInterceptors), u[5 + j] == s.baseServer.unaryInterceptors[j])
+//@   ensures [stream-chain-order] ret(net.Listen, 1) == nil ==> calls(WithStreamServerInterceptors) == 1 && len(st) == 3 + len(s.baseServer.streamInterceptors) && st[0] == serverinterceptors.StreamTracingInterceptor && st[1] == serverinterceptors.StreamCrashInterceptor && st[2] == serverinterceptors.StreamBreakerInterceptor
+//@   ensures [served-on-the-listener] ret(net.Listen, 1) == nil ==> calls(register, ret(grpc.NewServer)) == 1 && calls(Serve) == 1 && arg(Serve, 1) == ret(net.Listen, 0) && result == ret(Serve) && before(register, Serve)
+// The client chain: ..., breaker, then the timeout (so a timed-out call is judged by the breaker with its code).
+//@ func (*client).buildDialOptions
+//@   prop C14, C01
+//@   opaque WithUnaryClientInterceptors, WithStreamClientInterceptors, TimeoutInterceptor, NewCredentials, WithTransportCredentials, WithBlock
+//@   loop 1 invariant -1 <= rangeindex
+//@   let u = arg(WithUnaryClientInterceptors, 0)
+//@   ensures [unary-chain-order] calls(WithUnaryClientInterceptors) == 1 && len(u) == 5 && u[0] == clientinterceptors.UnaryTracingInterceptor && u[1] == clientinterceptors.DurationInterceptor && u[2] == clientinterceptors.PrometheusInterceptor && u[3] == clientinterceptors.BreakerInterceptor && u[4] == ret(clientinterceptors.TimeoutInterceptor)
+//@   ensures [configured-timeout] calls(clientinterceptors.TimeoutInterceptor, local(cliOpts).Timeout) == 1
